@@ -1,5 +1,7 @@
 package sim
 
+import kcp "github.com/xtaci/kcp-go/v5"
+
 // Always-on invariants evaluated at every quiescence of every session-level
 // run (O-bounds): the RTO bound of C18 and the occupancy limits of C04.
 
@@ -38,6 +40,7 @@ func (ep *Endpoint) minRTOCfg() uint32 {
 func (w *World) InstallBounds() {
 	s := w.S
 	s.Invariants = append(s.Invariants, func() {
+		w.noteWrongRatioRecovery()
 		for _, ep := range w.Eps {
 			if ep.Closed {
 				continue
@@ -61,4 +64,33 @@ func (w *World) InstallBounds() {
 			}
 		}
 	})
+}
+
+// noteWrongRatioRecovery is the attribution for the recorded C16 finding: it
+// remembers every endpoint that was decoding under a ratio different from its
+// peer's encoder while the library counted a FEC recovery.
+func (w *World) noteWrongRatioRecovery() {
+	if !w.Mismatch {
+		return
+	}
+	s := w.S
+	rec := kcp.DefaultSnmp.Copy().FECRecovered
+	if rec == w.lastRecovered {
+		return
+	}
+	w.lastRecovered = rec
+	for _, ep := range w.Eps {
+		if ep.Closed || ep.Peer == nil {
+			continue
+		}
+		fi := ep.Sess.VerifFEC()
+		pc := w.connFEC[ep.Peer.Conn.id]
+		if fi.Present && (fi.Data != pc[0] || fi.Parity != pc[1]) {
+			if !ep.RecoveredUnderWrongRatio {
+				s.L.Logf("%s: FEC recovery counted while decoding under %d/%d, peer encodes %d/%d", ep.Name, fi.Data, fi.Parity, pc[0], pc[1])
+			}
+			ep.RecoveredUnderWrongRatio = true
+			s.Stats.Probe("fec-recovery-under-wrong-ratio")
+		}
+	}
 }
